@@ -12,15 +12,17 @@
    with the numerators scaled by 4 (i.e. over 4096), which keeps both medians in Z. *)
 From Coq Require Import QArith.
 From Oxy Require Import Base.Prelude.
+From Oxy Require Gen.Consts.
 Open Scope Z_scope.
 
-(* ---- constants of rebalancer.go / rr.go (to be imported from Gen/Consts.v) ---- *)
-Definition FSMMaxWeight : Z := 4096.
-Definition FSMGrowFactor : Z := 4.
-Definition splitThreshold : Q := (3 # 2)%Q.   (* 1.5 *)
-Definition defaultWeight : Z := 1.            (* rr.go: var defaultWeight = 1 *)
+(* ---- constants of rebalancer.go / rr.go: taken from Gen/Consts.v, which tools/consts regenerates from the Go
+   source on every run (evaluated here, so proofs see the literal the source currently has) ---- *)
+Definition FSMMaxWeight : Z := Eval compute in Consts.FSMMaxWeight.        (* 4096 *)
+Definition FSMGrowFactor : Z := Eval compute in Consts.FSMGrowFactor.      (* 4 *)
+Definition splitThreshold : Q := Eval compute in Consts.splitThreshold.    (* 1.5 = 3#2 *)
+Definition defaultWeight : Z := Eval compute in Consts.defaultWeight.      (* rr.go: var defaultWeight = 1 *)
 Definition second : Z := 1000000000.
-Definition defaultBackoff : Z := 10 * second. (* NewRebalancer: backoffDuration == 0 -> 10 s *)
+Definition defaultBackoff : Z := Eval compute in (Consts.defaultBackoffSeconds * second). (* NewRebalancer: 0 -> 10 s *)
 
 (* ---------------------------------------------------------------------------------------------
    inner balancer (rr.go), membership part: ordered list of (key, weight)
